@@ -343,6 +343,19 @@ def random_sim_case(r, sim, nmax=14, tmaxes=None):
             g['ew'] = {'ew_': gen.weights(r, len(g['edges']), r.choice(['dyadic', 'nondyadic', 'wide']))}
             g['nw'] = {'nw_': gen.weights(r, n, r.choice(['dyadic', 'nondyadic']))}
             case['graph'] = g
+    if sim == 'Gillespie_simple_contagion' and r.random() < 0.3:
+        # directed contact network (documented for this simulator), with one-way and reciprocated arcs
+        g = dict(case['graph'])
+        d = gen.random_digraph(r, 1, 10)
+        g['n'], g['edges'], g['directed'] = d['n'], d['edges'], True
+        g.pop('ew', None)
+        g.pop('nw', None)
+        if case.get('weight_form'):
+            g['ew'] = {'ew_': gen.weights(r, len(g['edges']), r.choice(['dyadic', 'nondyadic']))}
+            g['nw'] = {'nw_': gen.weights(r, g['n'], 'nondyadic')}
+        case['graph'] = g
+        n = g['n']
+        case['IC'] = [r.randrange(len(case['spec']['statuses'])) for _ in range(n)]
     if sim == 'Gillespie_complex_contagion':
         case['cmodel'] = r.choice(['sir', 'sis', 'threshold'])
         case['cparams'] = [r.choice([0.5, 1.0, 2.0]), r.choice([0.5, 1.0, 0.3])]
@@ -360,4 +373,6 @@ def random_sim_case(r, sim, nmax=14, tmaxes=None):
         case['sim_kwargs'] = r.choice(['tex', 'pos'])       # keyword arguments for the Simulation_Investigation object (ignored without full data)
     if sim == 'Gillespie_simple_contagion' and case['tmax'] == 'inf':
         case['tmax'] = case['tmin'] + 4      # generic specs need not die out
+    if case['tmin'] < 0 and r.random() < 0.35:
+        case['tmax'] = r.choice([0, 0.0])    # a horizon of exactly zero (falsy) after a negative start time
     return case
